@@ -1,7 +1,10 @@
 package saslauthenticate
 
 import (
+	"bytes"
 	"encoding/binary"
+	"errors"
+	"fmt"
 	"io"
 
 	"github.com/segmentio/kafka-go/protocol"
@@ -42,13 +45,21 @@ func (r *Request) readResp(read io.Reader) (protocol.Message, error) {
 		return nil, err
 	}
 	respLen := int32(binary.BigEndian.Uint32(lenBuf[:]))
-	data := make([]byte, respLen)
+	if respLen < 0 {
+		return nil, fmt.Errorf("invalid negative length of sasl authentication response: %d", respLen)
+	}
 
-	if _, err := io.ReadFull(read, data[:]); err != nil {
+	// The length comes straight from the network and nothing bounds it: grow
+	// the buffer as the bytes arrive instead of allocating respLen upfront.
+	buf := &bytes.Buffer{}
+	if _, err := io.CopyN(buf, read, int64(respLen)); err != nil {
+		if errors.Is(err, io.EOF) {
+			err = io.ErrUnexpectedEOF
+		}
 		return nil, err
 	}
 	return &Response{
-		AuthBytes: data,
+		AuthBytes: buf.Bytes(),
 	}, nil
 }
 
